@@ -23,7 +23,8 @@ EXTENDS Integers, Sequences, FiniteSets, TLC
 
 CONSTANTS
   Kinds,        \* subset of {"bytes", "slices", "items"}
-  Lens,         \* lengths / capacities explored (abstraction: values around powers of two)
+  Small,        \* small lengths / capacities explored (abstraction: values around powers of two)
+  Around,       \* offsets around the largest class, e.g. {-1, 0, 1}: MaxLen(k) + d  and  MaxLen(k) \div 2 + d
   PoolBound,    \* buffers kept per kind (sync.Pool may drop the rest)
   Reslice       \* TRUE: the user may also shorten / lengthen B within its capacity before Put
 
@@ -42,6 +43,10 @@ NextLog(k, v) == IF k # "bytes" /\ v = 0 THEN 0 ELSE NextLogRaw(v)
 PrevLog(k, v) ==
   IF k # "bytes" /\ v = 0 THEN 0
   ELSE LET n == NextLog(k, v) IN IF v = 2 ^ n THEN n ELSE n - 1
+
+AroundStd == {-1, 0, 1}
+Lens == Small \cup {MaxLen(kind) + d : d \in Around} \cup {MaxLen(kind) \div 2 + d : d \in Around}
+LensOf(k) == Small \cup {MaxLen(k) + d : d \in Around} \cup {MaxLen(k) \div 2 + d : d \in Around}
 
 Clean(l, c) == [len |-> l, cap |-> c, dlo |-> 0, dhi |-> 0]
 None == [len |-> -1, cap |-> -1, dlo |-> 0, dhi |-> 0]
@@ -122,7 +127,7 @@ Foreign(k, l, c) ==
 
 \* Put: drop if cap = 0 or above the largest class; class = prevLog(cap); clear the entries of the SLICE; len = 0
 Cleared(k, b) ==
-  IF k = "bytes" THEN [b EXCEPT !.len = 0]                                   \* bb.Reset()
+  IF k = "bytes" THEN Clean(0, b.cap)                                        \* bb.Reset()  (the content of a byte buffer of length 0 is unobservable)
   ELSE IF b.dhi <= b.len THEN Clean(0, b.cap)                                 \* for i := range buf.B { buf.B[i] = zero }
   ELSE [len |-> 0, cap |-> b.cap, dlo |-> Max(b.dlo, b.len), dhi |-> b.dhi]
 
@@ -173,7 +178,7 @@ PoolClean == \A e \in pool["items"] : e.buf.dhi = 0
 
 \* the size-class functions are floor / ceiling of log2 on everything they are applied to
 ClassesOK ==
-  \A k \in Kinds : \A v \in Lens :
+  \A k \in Kinds : \A v \in LensOf(k) :
     (v >= 1 /\ v <= 2 * MaxLen(k)) =>
        /\ 2 ^ NextLog(k, v) >= v /\ (NextLog(k, v) = 0 \/ 2 ^ (NextLog(k, v) - 1) < v)
        /\ 2 ^ PrevLog(k, v) <= v /\ v < 2 ^ (PrevLog(k, v) + 1)
